@@ -606,6 +606,8 @@ fn arclen_quadrature_core(coeffs: &[(f64, f64)], dm: Vec2, dm1: Vec2, dm2: Vec2)
 }
 
 fn arclen_rec(c: &CubicBez, accuracy: f64, depth: usize) -> f64 {
+    #[cfg(kurbo_verif)]
+    crate::verif::tick();
     let d03 = c.p3 - c.p0;
     let d01 = c.p1 - c.p0;
     let d12 = c.p2 - c.p1;
@@ -778,6 +780,42 @@ pub fn cubics_to_quadratic_splines(curves: &[CubicBez], accuracy: f64) -> Option
     }
     None
 }
+
+/// Verification hooks: access to private helpers.
+#[cfg(kurbo_verif)]
+#[allow(missing_docs)]
+impl CubicBez {
+    pub fn verif_approx_spline_n(&self, n: usize, accuracy: f64) -> Option<QuadSpline> {
+        self.approx_spline_n(n, accuracy)
+    }
+    pub fn verif_fit_inside(&self, distance: f64) -> bool {
+        self.fit_inside(distance)
+    }
+    pub fn verif_approx_quad_control(&self, t: f64) -> Point {
+        self.approx_quad_control(t)
+    }
+    pub fn verif_subdivide_3(&self) -> (CubicBez, CubicBez, CubicBez) {
+        self.subdivide_3()
+    }
+    pub fn verif_split_into_n(&self, n: usize) -> alloc::vec::Vec<CubicBez> {
+        self.split_into_n(n).collect()
+    }
+    pub fn verif_regularize(&self, dimension: f64) -> CubicBez {
+        self.regularize(dimension)
+    }
+    /// 0 = none, 1 = loop, 2 = double inflection
+    pub fn verif_detect_cusp(&self, dimension: f64) -> u8 {
+        match self.detect_cusp(dimension) {
+            None => 0,
+            Some(CuspType::Loop) => 1,
+            Some(CuspType::DoubleInflection) => 2,
+        }
+    }
+    pub fn verif_arclen_rec(&self, accuracy: f64, depth: usize) -> f64 {
+        arclen_rec(self, accuracy, depth)
+    }
+}
+
 #[cfg(test)]
 mod tests {
     use crate::{
